@@ -644,9 +644,15 @@ def c03(tier):
                                        invariants=("ReadLatest", "RecoveredIsPrefix", "SyncedSurvive", "DrainedIsAll")),
                        num, 30, SEED + 31 + i * 17, 2, 2, inner_images=0, small=True, label="c03_%d" % i)
     # directed: clean close with >= 4 log files pending / with a recycled file, crash with 3 files
-    dbehs, dres = directed_behaviours(want=lambda b: has_step(b, lambda e: e.get("a") == "CloseOpen") or
+    # ... and crash with >= 2 applied records still in their log files plus a synced, unapplied one (recovery replays
+    # records that the tables are already ahead of, then must still apply the synced one)
+    replayed_ahead = lambda b: has_step(b, lambda e: e.get("a") == "Crash" and e.get("napp", 0) >= 2 and e.get("nsyn", 0) >= 1)
+    dbehs, dres = directed_behaviours(want=lambda b: has_step(b, lambda e: e.get("a") == "CloseOpen") or replayed_ahead(b) or
                                       has_step(b, lambda e: e.get("a") == "Crash" and e.get("nfiles", 0) >= 3),
-                                      limit=300 if thorough else 60)
+                                      prefer=replayed_ahead, limit=300 if thorough else 80)
+    rep.extra["directed_crash_with_applied_records_in_files_and_a_synced_one"] = sum(1 for b in dbehs if replayed_ahead(b))
+    if rep.extra["directed_crash_with_applied_records_in_files_and_a_synced_one"] == 0:
+        raise ToolError("directed generation: no crash with two applied records still in their files and a synced one: vacuous")
     rep.add_model(dres, "DIR_Pdb(directed generation)")
     rep.extra["directed_behaviours"] = len(dbehs)
     replay_behaviours(rep, dbehs, [{"kind": "hash", "uniform": True}], 2, 2, SEED + 910, "c03dir")
